@@ -101,7 +101,10 @@ pub fn minimise_case(case: &Case, fails: &mut dyn FnMut(&Case) -> bool, budget: 
             let mut c = best.clone();
             match tweak {
                 0 => c.plan.stall_permille = 0,
-                1 => c.plan.shortread = 0,
+                1 => {
+                    c.plan.shortread = 0;
+                    c.plan.shortwrite = 0;
+                }
                 2 => {
                     c.plan.stderr_errno = 0;
                     c.plan.wall_back.clear();
